@@ -5,14 +5,16 @@ The tree must be clean; nothing is committed there."""
 import json, os, re, subprocess, sys
 HERE = os.path.dirname(os.path.dirname(os.path.abspath(__file__)))
 REPO = os.environ.get("CUTPLACE_REPO", "/repo")
-ALSO = {"C02": ["C03"], "C17": ["C16"], "C10b": ["C15"], "C05": ["C08", "C20"], "C20": ["C07"], "C08": ["C05"], "C04": ["C06"], "C03": ["C02"]}
+ALSO = {"C03w6": ["C20"], "C20w6": ["C03"], "C04w6": ["C06"], "C06w6": ["C04"], "C15w6": ["C17"], "C17w6": ["C15"], "C02": ["C03"], "C17": ["C16"], "C10b": ["C15"], "C05": ["C08", "C20"], "C20": ["C07"], "C08": ["C05"], "C04": ["C06"], "C03": ["C02"]}
 def sh(cmd, **kw):
     return subprocess.run(cmd, shell=True, stdout=subprocess.PIPE, stderr=subprocess.STDOUT, text=True, **kw)
 assert sh("git -C %s diff --quiet" % REPO).returncode == 0, "tree not clean"
+FILTER = sys.argv[1] if len(sys.argv) > 1 else ""
+OUT = "MATRIX.md" if not FILTER else "MATRIX_%s.md" % FILTER
 rows = []
 for sid in sorted(os.listdir(os.path.join(HERE, "seeded"))):
     d = os.path.join(HERE, "seeded", sid)
-    if not os.path.isfile(os.path.join(d, "patch.diff")):
+    if not os.path.isfile(os.path.join(d, "patch.diff")) or FILTER not in sid:
         continue
     meta = json.load(open(os.path.join(d, "meta.json")))
     prop = meta.get("property", sid[:3])
@@ -30,10 +32,10 @@ for sid in sorted(os.listdir(os.path.join(HERE, "seeded"))):
         sh("git -C %s checkout -- ." % REPO)
     rows.append((sid, prop, "; ".join(res), meta.get("needs", "")[:160].replace("\n", " ").replace("|", "/")))
     print(rows[-1][:3], flush=True)
-with open(os.path.join(HERE, "seeded", "MATRIX.md"), "w") as fh:
+with open(os.path.join(HERE, "seeded", OUT), "w") as fh:
     fh.write("# Seeded changes against the checks (quick tier)\n\nWritten by tools/seed_matrix.py. 'corr' = the model and the implementation disagree on a case, "
              "'oracle' = the property restated on the implementation fails, 'proof-broken' = a regenerated table no longer satisfies a theorem.\n\n")
     fh.write("| seed | property | result | needs |\n|---|---|---|---|\n")
     for r in rows:
         fh.write("| %s | %s | %s | %s |\n" % r)
-print("written seeded/MATRIX.md")
+print("written seeded/" + OUT)
